@@ -48,12 +48,16 @@ def num(c):
 
 def judge_case(ctx, res, case, cs, table):
     info = {"case": case}
-    bad = [a for a in ALGOS if isinstance(cs[a], dict) or cs[a] is None or isinstance(cs[a], list)]
+    bad = [a for a in ALGOS if isinstance(cs[a], dict) or isinstance(cs[a], list)]
     if bad:
         # failures are C01-C03's business; nothing to compare here
         res.notes.append(f"skipped (no single cost): {bad}")
         return
-    c = {a: num(cs[a]) for a in ALGOS}
+    # an EMPTY result (cost None) is "no solution": its optimum is infinite.  It takes part in the inequalities
+    # (an extended solver returning nothing where its base variant finds a solution does exceed it)
+    c = {a: num("inf" if cs[a] is None else cs[a]) for a in ALGOS}
+    if any(cs[a] is None for a in ALGOS):
+        res.dist["empty result (counted as an infinite optimum)"] += 1
     rel = [
         ("ext_spfs", "base_spfs", "extended ordered optimum exceeds the base ordered optimum"),
         ("superdtl", "base_uspfs", "extended unordered optimum exceeds the base unordered optimum"),
@@ -69,14 +73,15 @@ def judge_case(ctx, res, case, cs, table):
         return
     # tie with the model's table minima
     for a in ALGOS:
-        if table.get(a) is not None and table[a] != cs[a]:
+        if table.get(a) is not None and table[a] != ("inf" if cs[a] is None else cs[a]):
             res.tie_broken(f"{a}: cost vs model table minimum", case, table[a], cs[a])
 
 
 def judge_single(ctx, res, case, cs):
     info = {"case": case, "variant": "single family"}
-    if any(isinstance(cs[a], dict) or cs[a] is None or isinstance(cs[a], list) for a in ALGOS):
+    if any(isinstance(cs[a], dict) or isinstance(cs[a], list) for a in ALGOS):
         return
+    cs = {a: ("inf" if v is None else v) for a, v in cs.items()}  # empty result = infinite optimum
     if not (cs["ext_spfs"] == cs["superdtl"] == cs["thl"]):
         res.violation(
             f"single family: ordered={cs['ext_spfs']}, unordered={cs['superdtl']}, plain={cs['thl']} differ",
